@@ -39,8 +39,8 @@ REGISTRY = {
  'C06': dict(level='other', P=[('contracts.serialization', None)], R=['rtc.battery_C06'],
              explanation='PROVED: the value converters of serialization.py (single value and list overloads): strings unchanged, non-finite numbers become the marker, finite numbers keep their value, the result is json-serialisable, and decoding the encoded value gives the value back on the domain {strings other than the marker, finite numbers, +inf} (numpy classification predicates assumed). BOUNDED: to_json is json-serialisable; the reloaded object gives the same transform output or the same rejection on train / dev / shifted / unseen / float32 frames, '
                          'the same summary, and re-serialises to the same JSON.'),
- 'C07': dict(level='other', P=[TRANSFORM], R=['rtc.battery_C07'],
-             explanation='PROVED: BaseDiscretizer.transform writes nothing reachable from self (frame obligation, given the assumed frames of _prepare_data / _transform_quantitative / _transform_qualitative), and its missing-value loop touches exactly the columns of features whose per-feature dropna flag is False. BOUNDED: fit_transform == fit;transform, row-wise purity (subset, permutation, three re-indexings), repeatability, fitted state unchanged by transform, index/columns '
+ 'C07': dict(level='other', P=[TRANSFORM, ('contracts.pool', None)], R=['rtc.battery_C07'],
+             explanation='PROVED: BaseDiscretizer.transform writes nothing reachable from self (frame obligation, given the assumed frames of _prepare_data / _transform_qualitative; that of _transform_quantitative is proved: contracts.pool), and its missing-value loop touches exactly the columns of features whose per-feature dropna flag is False. BOUNDED: fit_transform == fit;transform, row-wise purity (subset, permutation, three re-indexings), repeatability, fitted state unchanged by transform, index/columns '
                          'kept, non-feature columns untouched, caller data unmodified with copy=True.'),
  'C08': dict(level='other', P=[GL_ALL, ('contracts.base_discretizers', None), REG_Q, REG_C], R=['rtc.battery_C08', 'rtc.c09_base'],
              explanation='PROVED: every GroupedList operation preserves the ordered-partition invariant (so any values_orders entry built through them is well formed); REGION contracts: the loops of QualitativeDiscretizer._prepare_data and ChainedDiscretizer._prepare_data / fit that append the missing-value marker, handle unknown values and merge along the hierarchy call append / group within their preconditions and leave partitions that lost no value (entry state assumed; defects D13, D28, D30 lived there); the four _remove_feature methods remove the feature from every per-feature attribute and every casting list, leave all other entries unchanged and preserve the coherence invariant COH. BOUNDED: fit completes or '
@@ -66,10 +66,10 @@ REGISTRY = {
              explanation='PROVED on the program text (syntactic contract checks): the first statement of every public fit is the refit guard `assert not self.is_fitted`, so a second fit is refused '
                          'before any write to the object. BOUNDED: every malformation of the property list injected at a seeded row into valid samples, for the three carvers and the Discretizer '
                          'family, on fresh and on fitted objects: AssertionError and nothing else; values_orders / to_json / transform of a fitted object unchanged by the rejected call.'),
- 'C10': dict(level='other', P=[], R=['rtc.c10_independence'],
-             explanation='BOUNDED relational contracts on the real fit/transform of the Discretizer family and the carvers: each feature alone vs among the others; reversed feature lists and '
+ 'C10': dict(level='other', P=[('contracts.pool', None)], R=['rtc.c10_independence'],
+             explanation='PROVED (engine P, every n_jobs): in BaseDiscretizer._transform_quantitative the list of per-feature results handed to the DataFrame assembly is, position by position, transform_quantitative_feature(feature, X[feature], values_orders, str_nan, labels_per_values, len(X)) over self.quantitative_features in that order, in the sequential branch AND in the pool branch -- so what transform outputs for a feature depends neither on n_jobs nor on which other features are listed; ASSUMED: multiprocessing (apply_async(g, args).get() == g(*args)), transform_quantitative_feature deterministic (its own contract: contracts.unseen), the pandas assembly. BOUNDED relational contracts on the real fit/transform of the Discretizer family and the carvers: each feature alone vs among the others; reversed feature lists and '
                          'shuffled columns; PYTHONHASHSEED in {0,1,2,3} (sub-processes); n_jobs in {2,3} with a pool that delivers imap_unordered results in arbitrary (seeded) completion order. '
-                         'Nothing is proved: the pool sites are library-mediated (multiprocessing) and the independence argument is over pandas code.',
+                         'The two fit-time pool sites (StringDiscretizer.fit apply_async, ContinuousDiscretizer.fit imap_unordered) and the independence argument over the pandas code are bounded only.',
              note='Not covered: the behaviour of the real multiprocessing.Pool (replaced by an in-process pool with arbitrary completion order).'),
  'C11': dict(level='other', P=[], R=['rtc.c11_invariance'],
              explanation='BOUNDED relational contracts only (a two-run property of the pandas pipeline; nothing is proved): for count-table frames with exact ties and for random frames, the kept '
